@@ -16,6 +16,8 @@ type proxyTraceResult struct {
 	body   string // an attempt is made on a body that was not rewound
 	conns  string // in-flight counter not 1 during an attempt or not 0 afterwards
 	fails  string // failure not recorded on a backend with fail_timeout
+	fresh  string // an attempt starts from a URL or header the previous attempt's director / header rules had modified
+	buffer string // the body is buffered under other conditions than {more than one backend, retries enabled}
 	other  string
 	n      int
 	traces []string
@@ -86,6 +88,7 @@ func proxyTraces(h H) *proxyTraceResult {
 		pos := 0       // next step
 		lastStep := -1 // the step whose elapsed time the clock reports
 		rewinds := 0
+		bufferings := 0
 		rewoundSince := false
 		type attempt struct {
 			host    int
@@ -134,6 +137,7 @@ func proxyTraces(h H) *proxyTraceResult {
 			case callee == "callback:cancel":
 				return atuple{}, true
 			case strings.HasSuffix(callee, "proxy.newBufferedBody"):
+				bufferings++
 				return atuple{aptr{bb, ""}, anil{}}, true
 			case strings.HasSuffix(callee, "proxy.bufferedBody).rewind"):
 				if who(args[0]) == bb {
@@ -171,7 +175,7 @@ func proxyTraces(h H) *proxyTraceResult {
 				return atuple{anil{}, backendErr}, true
 			case callee == "errors.Is":
 				return abool(false), true
-			case strings.HasSuffix(callee, "proxy.copyHeader"), strings.HasSuffix(callee, "proxy.mutateHeadersByRules"):
+			case strings.HasSuffix(callee, "proxy.mutateHeadersByRules"):
 				return atuple{}, true
 			case strings.HasSuffix(callee, "proxy.ReverseProxy).ServeHTTP"):
 				if pos >= len(sc.steps) {
@@ -192,6 +196,23 @@ func proxyTraces(h H) *proxyTraceResult {
 				}
 				tries = append(tries, attempt{hi, conns, rewoundSince})
 				rewoundSince = false
+				// what the director and the header rules do to the outgoing request: it must not survive into the
+				// next attempt
+				if rq, ok := args[2].(aptr); ok {
+					if up, ok := env.load(rq.obj, joinPath(rq.path, "URL")).(aptr); ok {
+						if pth, _ := env.load(up.obj, joinPath(up.path, "Path")).(astr); string(pth) != "" && res.fresh == "" {
+							res.fresh = fmt.Sprintf("%s: attempt %d starts with the URL path %q left behind by the previous attempt", sc.desc, len(tries), string(pth))
+						}
+						env.store(up.obj, joinPath(up.path, "Path"), astr("/rewritten-by-director"))
+					}
+					if hm, ok := env.load(rq.obj, joinPath(rq.path, "Header")).(amap); ok {
+						if _, dirty := hm.m.vals["s:X-Added-By-Rule"]; dirty && res.fresh == "" {
+							res.fresh = fmt.Sprintf("%s: attempt %d starts with a header added during the previous attempt", sc.desc, len(tries))
+						}
+						hm.m.vals["s:X-Added-By-Rule"] = newVals([]aval{astr("1")}, types.Typ[types.String])
+						hm.m.keys["s:X-Added-By-Rule"] = astr("X-Added-By-Rule")
+					}
+				}
 				switch st.outcome {
 				case "ok":
 					return anil{}, true
@@ -235,6 +256,9 @@ func proxyTraces(h H) *proxyTraceResult {
 			res.retry = fmt.Sprintf("%s; specification: attempts [%s], status %d", tr, strings.Join(want, " "), sc.wantStatus)
 		}
 		buffered := sc.hostCount > 1 && sc.tryDuration != 0
+		if (bufferings == 1) != buffered && res.buffer == "" {
+			res.buffer = fmt.Sprintf("%s (%d backends, try_duration %d): the body is buffered %d times; specification: exactly once when there is more than one backend and retries are enabled, never otherwise", sc.desc, sc.hostCount, sc.tryDuration, bufferings)
+		}
 		for i, a := range tries {
 			if buffered && !a.rewound && res.body == "" {
 				res.body = fmt.Sprintf("%s: attempt %d is made without the buffered body having been rewound (it receives what the previous attempt left)", sc.desc, i+1)
